@@ -360,7 +360,8 @@ class Report:
 TRUSTED_COMMON = [
     "Coq 8.16.1 kernel and its VM (vm_compute); no native_compute",
     "harness: Ex exact-number class, Python-to-Coq literal printer, case generators (harness/*.py)",
-    "Q-to-R transfer of the Num-generic model (same Gallina term on two instances; not proved as a theorem)",
+    "Q-to-R transfer of the Num-generic model is proved (theories/Transfer*.v, parametricity terms generated by the Paramcoq plugin "
+    "and checked by the kernel; Battery/Strat transfer to the R instance that answers exp/ln from the same recorded table)",
     "IEEE-754 rounding is outside the model: the implementation is executed on exact rationals",
 ]
 AXIOMS_R = ["ClassicalDedekindReals.sig_forall_dec", "ClassicalDedekindReals.sig_not_dec",
